@@ -17,6 +17,34 @@ from Reduino.transpile.emitter import emit  # noqa: E402
 from Reduino.transpile.parser import parse  # noqa: E402
 from checks.c10 import module_state  # noqa: E402
 
+# an importable package whose name merely starts with "Reduino": importing it (even as the parent of a dotted name
+# handed to importlib) runs its __init__, which writes the canary
+_CANARY_PKG = ROOT / "build" / "c11-path"
+(_CANARY_PKG / "Reduino_boards").mkdir(parents=True, exist_ok=True)
+(_CANARY_PKG / "Reduino_boards" / "__init__.py").write_text("open('/verif/build/c11-canary', 'w').write('imported')\n")
+(_CANARY_PKG / "Reduino_boards" / "uno.py").write_text("LED_PIN = 13\n")
+sys.path.append(str(_CANARY_PKG))
+
+
+def interpreter_state():
+    """Process-wide settings a transpilation has no business changing (whether it succeeds or fails)."""
+    import decimal
+    import locale
+    import threading
+    import warnings
+
+    umask = os.umask(0)
+    os.umask(umask)
+    return (
+        sys.getrecursionlimit(), sys.get_int_max_str_digits(), sys.getswitchinterval(), os.getcwd(), tuple(sorted(os.environ.items())), tuple(sys.path), sys.gettrace() is None,
+        sys.getprofile() is None, len(warnings.filters), decimal.getcontext().prec, locale.getlocale(), umask, threading.active_count(), sys.stdout is sys.__stdout__, sys.stderr is sys.__stderr__,
+        sys.excepthook is sys.__excepthook__, getattr(sys, "tracebacklimit", None), sys.dont_write_bytecode,
+    )
+
+
+
+ISTATE0 = interpreter_state()  # before anything has been transpiled in this process (the warm-up included)
+
 WARM = (
     "from Reduino.Actuators import Led\nfrom Reduino.Utils import sleep\nled = Led(13)\nx = [1, 2]\nx.append(3)\n"
     "def f(a):\n    return a + 1\ntry:\n    y = f(2)\nexcept Exception:\n    y = 0\nwhile True:\n    led.toggle()\n    sleep(f\"{y}\" == \"3\")\n"
@@ -67,6 +95,7 @@ def hook(event, args):
         EVENTS.append(f"import:{name}")
     elif event.startswith(SUSPICIOUS_PREFIX):
         EVENTS.append(event)
+
 
 
 sys.addaudithook(hook)
@@ -125,6 +154,12 @@ for line in sys.stdin:
             os.environ.clear()
             os.environ.update(saved_env)
             os.chdir(saved_cwd)
+    ist = interpreter_state()
+    if ist != ISTATE0:
+        changed = [i for i, (x, y) in enumerate(zip(ist, ISTATE0)) if x != y]
+        env_dependent = (env_dependent + " " if env_dependent else "") + f"interpreter-wide state changed (fields {changed}; e.g. recursion limit {ISTATE0[0]} -> {ist[0]})"
+        sys.setrecursionlimit(ISTATE0[0])
+        ISTATE0 = interpreter_state()
     rec = {"id": case.get("id"), "outcome": outcome, "detail": detail, "wall": round(wall, 4), "cpu": round(cpu, 4), "events": EVENTS[:6], "state_changed": state_changed, "env_dependent": env_dependent}
     sys.stdout.write(json.dumps(rec) + "\n")
     sys.stdout.flush()
